@@ -13,14 +13,17 @@ MANIFEST = {
             "[0,1] when feasible; Gaussian 1-D/2-D: the rejection loop adds exactly k+1 new cells on every candidate stream on "
             "which it returns, so with k = round_half_even(N/R - #ACS - 1) the count is within 1/2 sample of N/R when "
             "#ACS + 1/2 <= N/R and equals #ACS otherwise; VD-Poisson: whenever the bisection returns, |R_actual - R| < tol (for "
-            "every sequence of kernel results); Equispaced: adjusted-acceleration algebra, grid size, rounded grid strictly "
-            "increasing inside the row, count = #ACS + #(grid points outside the ACS block), and for all N, L, R > 1, offset: "
-            "N/R - 2 - 1/(2a) <= count < N/R + 2. Tied to the code by translated rational expressions (bridge lemmas by ring), "
+            "every sequence of kernel results); the post-condition is about the RETURNED mask (no statement after the tolerance test "
+            "may modify it - generated table); Equispaced: adjusted-acceleration algebra, grid size, rounded grid strictly "
+            "increasing inside the row, count = #ACS + #(grid points outside the ACS block), and the full-strength bound "
+            "|count - N/R| <= 2 for all N, L, R >= 2, offset (attained); choose_acceleration pairs acceleration and centre "
+            "fraction by the same drawn index and rejects uniform_range. Tied to the code by translated rational expressions (bridge lemmas by ring), "
             "source skeletons of the .pyx loops and of the bisection, and exact differential correspondence on recorded draws "
             "(uniforms, offsets, reconstructed libc candidate streams, per-iteration accelerations).",
-    "note": "Partial: the property's equispaced bound 2 is proved only up to the slack 1/(2a) <= 1/4 on the lower side "
-            "(upper side in full); the exact bound on N = 32..400, R in {2..12, 2.5, 5.5}, four centre fractions, every offset is "
-            "established by exhaustive enumeration of the model and of the implementation (enumeration, not proof). The "
+    "note": "The equispaced bound 2 is a theorem for R >= 2 (for 1 < R < 2, outside the property's range, only N/R - 2 - 1/(2a) <= "
+            "count < N/R + 2); the exhaustive enumeration on N = 32..400, R in {2..12, 2.5, 5.5}, four centre fractions, every offset "
+            "of model and implementation is kept as supporting evidence. Known finding: _poisson.pyx active-list overrun "
+            "(segfault) for max_attempts > 10. The "
             "statement 'in expectation over seeds' for random masks assumes numpy's uniform distribution and is checked "
             "statistically (6 sigma band). Magic (offset) generators deviate by design and are reported, not judged. Trusted: "
             "Lean kernel, the translator, float arithmetic agreeing with exact rational arithmetic away from ties (tie-fragile "
@@ -311,7 +314,7 @@ def gen_cases(ctx: Ctx) -> list[dict]:
     rng = ctx.rng
     cases = []
 
-    def add(gen, n, sizes, two_d=False, modes=RC.MODES, cart=False, infeasible=0.0):
+    def add(gen, n, sizes, two_d=False, modes=RC.MODES, cart=False, infeasible=0.0, multi=0, uniform=False):
         for i in range(n):
             mode = modes[i % len(modes)]
             R = _R(rng)
@@ -331,6 +334,12 @@ def gen_cases(ctx: Ctx) -> list[dict]:
             shape = ([rng.randint(2, 3)] if dyn else []) + [rows, cols, 2]
             seed = rng.randrange(2 ** 31) if rng.random() < 0.6 else [rng.randrange(256) for _ in range(6)]
             conf = {"gen": gen, "accelerations": [R], "center_fractions": [cf], "mode": mode}
+            if multi:        # several (acceleration, centre fraction) pairs per instance: the call draws which one it uses
+                Rs = [_R(rng) for _ in range(multi)]
+                conf["accelerations"] = Rs
+                conf["center_fractions"] = [_cf_for(r, rng, two_d) for r in Rs]
+            if uniform:      # public API with uniform_range=True: documented as not implemented, must be rejected
+                conf["kwargs"] = {"uniform_range": True}
             if gen == "VariableDensityPoisson":
                 # constructor options that affect the budget
                 kw = {"crop_corner": i % 2 == 1}
@@ -355,6 +364,12 @@ def gen_cases(ctx: Ctx) -> list[dict]:
     add("Gaussian2D", q(9, 36), [16, 24, 32, 33, 48, 64], two_d=True, infeasible=0.15)
     add("VariableDensityPoisson", q(16, 60), [32, 40, 48, 51, 64, 65, 96, 128], two_d=True)
     add("KtRadial", q(4, 12), [32, 48, 64], two_d=True, modes=["dynamic"])      # crop_corner on/off: reported, not judged
+    add("Gaussian1D", q(9, 40), None, multi=3)
+    add("Gaussian2D", q(4, 16), [16, 24, 32, 48, 64], two_d=True, multi=2)
+    add("Gaussian1D", q(3, 9), None, uniform=True)
+    add("Gaussian2D", q(2, 6), [16, 32], two_d=True, uniform=True)
+    add("KtUniform", q(4, 16), [32, 48, 64, 96], two_d=True, modes=["dynamic"])       # budgets reported, not judged
+    add("KtGaussian1D", q(4, 16), [32, 48, 64, 96], two_d=True, modes=["dynamic"])
     add("FastMRIMagic", q(6, 40), None)
     add("CartesianMagic", q(3, 20), None, cart=True)
     if ctx.thorough:
@@ -373,6 +388,9 @@ def _classify_crash(case: dict, how: str) -> dict:
         # the known class: radius ~ 1, many attempts, a point accepted into an occupied cell, num_actives > nx*ny.
         # confirm through the .pyx front-end (bounds-checked Python) when that is cheap
         rec["key"] += "/active-list-overrun"
+        if case["shape"][-3] * case["shape"][-2] > 48 * 48:
+            rec["frontend"] = "not attempted (pure-Python kernel too slow for this size)"
+            return rec
         w = RC.Worker({"VERIF_FORCE_FRONTEND": "1"})
         try:
             r = w.call(MOD, "job_case", case, budget=25)
@@ -459,6 +477,20 @@ def _q(x):
     return f.numerator, f.denominator
 
 
+def _choice(res) -> int | None:
+    """index drawn by choose_acceleration in the mask call (None when the call never got there)"""
+    for e in res.get("log", []):
+        if e["kind"] == "draw" and e["func"] == "choose_acceleration" and e.get("value"):
+            return int(e["value"][0])
+    return None
+
+
+def _chosen_R(c):
+    i = _choice(c["res"])
+    accs = c["conf"]["accelerations"]
+    return accs[i] if i is not None and i < len(accs) else accs[0]
+
+
 def _frame_draws(log, method):
     return [e for e in log if e["kind"] == "draw" and e["method"] == method and e["func"] != "choose_acceleration"]
 
@@ -468,10 +500,24 @@ def correspondence(ctx: Ctx):
     for c in _RUN["cases"]:
         conf, res, shape = c["conf"], c["res"], c["shape"]
         gen, mode = conf["gen"], conf["mode"]
-        R = conf["accelerations"][0]
+        R = _chosen_R(c)
         Rn, Rd = _q(R)
         N = shape[-2]
         rows = shape[-3]
+        multi = len(conf["accelerations"]) > 1
+        uniform = bool(conf.get("kwargs", {}).get("uniform_range"))
+        if gen == "Gaussian1D" and (multi or uniform):
+            # which pair the call uses (public API: several accelerations per instance / uniform_range=True)
+            flat = lambda xs: [v for x in xs for v in _q(x)]  # noqa: E731
+            ch = _choice(res)
+            if res["err"] is not None:
+                ans = "err " + res["err"]
+            else:
+                k0 = [e for e in res["log"] if e["kind"] == "kernel"][0]["ints"][0]
+                ans = "ok %d %d %d" % (ch, res["acs_count"][0] // rows, k0)
+            yield {"line": line("gchoose", [N, 1 if uniform else 0, ch if ch is not None else 0], flat(conf["accelerations"]),
+                                flat(conf["center_fractions"])), "impl": (lambda a=ans: a), "nontrivial": True,
+                   "bucket": "gchoose/" + ("uniform_range-rejected" if uniform else f"pair{ch}of{len(conf['accelerations'])}")}
         if res["acs_err"] is not None and gen not in ("FastMRIEquispaced", "CartesianEquispaced"):
             continue
         L = res["acs_count"][0] // rows if res.get("acs_count") and gen not in RC.TWO_D else None
@@ -524,7 +570,7 @@ def correspondence(ctx: Ctx):
                 ans = "ok %d 1 %d" % (k, res["count"][f])
                 yield {"line": line("gauss2d", [rows, N, Rn, Rd], res["acs_bits"][min(f, len(res["acs_bits"]) - 1)], res["cands"][f]),
                        "impl": (lambda a=ans: a), "nontrivial": k >= 0,
-                       "bucket": f"gauss2d/{mode}/" + ("feasible" if k >= 0 else "infeasible")}
+                       "bucket": f"gauss2d/{mode}/" + ("multi/" if multi else "") + ("feasible" if k >= 0 else "infeasible")}
         elif gen == "VariableDensityPoisson":
             yield from _poisson_cases(c)
     # exhaustive enumeration: every offset of every (N, R, cf)
@@ -612,10 +658,11 @@ def oracle(ctx: Ctx, deep: bool = False):
     magic_dev = 0.0
     worst = {"equi": 0.0, "gauss": 0.0, "poisson": 0.0, "poisson_crop": 0.0, "ktradial": 0.0, "ktradial_crop": 0.0}
     n_opts = {"crop_corner": 0, "tol": 0, "max_attempts": 0, "slopes": 0}
+    kt_report: dict = {}
     for c in store["cases"]:
         conf, res, shape = c["conf"], c["res"], c["shape"]
         gen = conf["gen"]
-        R = float(conf["accelerations"][0])
+        R = float(_chosen_R(c))
         rows, cols = shape[-3], shape[-2]
         rep = {"op": "case", "conf": conf, "shape": shape, "seed": c["seed"]}
         two_d = gen in RC.TWO_D
@@ -627,6 +674,10 @@ def oracle(ctx: Ctx, deep: bool = False):
                                    "cf": conf["center_fractions"][0], "count": res.get("count"), "target": round(target, 3)},
                   bucket=f"oracle/{gen}/{conf['mode']}" + ("" if ok_call else "/" + str(res["err"])))
         if not ok_call:
+            if conf.get("kwargs", {}).get("uniform_range"):
+                if res["err"] != "NotImplementedError":
+                    yield Violation(f"uniform-range/{gen}", f"uniform_range=True: expected NotImplementedError, got {res['err']}", rep)
+                continue
             if gen == "VariableDensityPoisson" and res["err"] == "ValueError":
                 continue          # allowed outcome: "cannot generate mask" instead of a mask outside the tolerance
             if c["infeasible_by_design"] or gen.endswith("Magic"):
@@ -666,11 +717,17 @@ def oracle(ctx: Ctx, deep: bool = False):
                     yield Violation("poisson-tolerance" + ("/crop_corner" if crop else ""),
                                     f"VD-Poisson (options {kw}) returned a mask with |R_actual - R| = {d:.3f} >= tol {tol}",
                                     dict(rep, frame=f, observed=cnt, expected=target, realised_acceleration=total / cnt if cnt else None))
+            elif gen in ("KtUniform", "KtGaussian1D"):
+                pass      # reported per volume below
             elif gen == "KtRadial":
                 wk = "ktradial_crop" if conf.get("kwargs", {}).get("crop_corner") else "ktradial"
                 worst[wk] = max(worst[wk], abs(total / cnt - R) if cnt else float("inf"))
             elif gen.endswith("Magic"):
                 magic_dev = max(magic_dev, dev)
+        if gen in ("KtUniform", "KtGaussian1D") and sum(counts):
+            # k-t masks: the budget is over the whole (frames x rows x cols) volume; reported, not judged
+            real = len(counts) * total / sum(counts)
+            kt_report.setdefault(gen, []).append(round(real - R, 3))
     # enumeration of the equispaced family on the implementation: the property's bound itself
     n_enum = 0
     enum_worst = (0.0, None)
@@ -710,7 +767,8 @@ def oracle(ctx: Ctx, deep: bool = False):
                      f"samples, poisson |R_actual-R|/tol {worst['poisson']:.3f} (crop_corner=False) {worst['poisson_crop']:.3f} "
                      f"(crop_corner=True), VD-Poisson cases with options {n_opts}; reported, not judged: Magic generators "
                      f"{magic_dev:.2f} cols, KtRadial |R_actual-R| {worst['ktradial']:.2f} (crop_corner=False) "
-                     f"{worst['ktradial_crop']:.2f} (crop_corner=True)")
+                     f"{worst['ktradial_crop']:.2f} (crop_corner=True), realised minus requested acceleration over the k-t volume: "
+                     + "; ".join(f"{g} min {min(v):.2f} max {max(v):.2f} over {len(v)}" for g, v in sorted(kt_report.items())))
 
 
 def replay(rep: dict) -> bool:
